@@ -1,8 +1,39 @@
 import AFV.Driver.Proto
+import AFV.Spec.Front
 namespace AFV.Driver.C17
-open Lean AFV.Proto
+open Lean AFV.Proto AFV.Front
 
-/-- Handler for property C17 requests (stub: not implemented yet). -/
-def handle (_req : Json) : Json := err "unimplemented"
+/-- kept for the other mapper-level drivers: front of (energy, latency) pairs through the proved `frontFast`. -/
+def front2 (rows : List (Int × Int)) : List (Int × Int) :=
+  (frontFast (rows.map (fun p => [p.1, p.2]))).filterMap (fun v => match v with | [a, b] => some (a, b) | _ => none)
+
+private def vec2? (j : Json) : Option Vec := do
+  let a ← intList? j
+  if a.length == 2 then some a else none
+
+private def optJ : Option Int → Json
+  | some i => ofInt i
+  | none => Json.null
+
+/-- {"op":"minima","rows":[[E,L],…]} → minima of E, L, E·L over the FRONT (`AFV.Front.frontFast`, proved equal to the
+all-pairs `front`) of the rows, and over all rows (theorem `AFV.C17.metric_consistency` says they coincide). -/
+def handle (req : Json) : Json :=
+  match (field? req "op").bind getStr? with
+  | some "minima" =>
+    match (field? req "rows").bind getArr? with
+    | some arr =>
+      match arr.toList.mapM vec2? with
+      | some rows =>
+        if rows.isEmpty then err "empty" else
+        let f := frontFast rows
+        let e := fun (v : Vec) => v.getD 0 0
+        let l := fun (v : Vec) => v.getD 1 0
+        let p := fun (v : Vec) => v.getD 0 0 * v.getD 1 0
+        Json.mkObj [("minE", optJ (minOf e f)), ("minL", optJ (minOf l f)), ("minEDP", optJ (minOf p f)),
+                    ("allMinE", optJ (minOf e rows)), ("allMinL", optJ (minOf l rows)), ("allMinEDP", optJ (minOf p rows)),
+                    ("frontSize", ofNat f.length)]
+      | none => err "malformed"
+    | none => err "malformed"
+  | _ => err "bad-op"
 
 end AFV.Driver.C17
